@@ -23,6 +23,7 @@ type Stream struct {
 	cursor                int64
 	filledBuffer          bool
 	allRead               bool
+	readErr               error
 	UseNumber             bool
 	DisallowUnknownFields bool
 	Option                *Option
@@ -207,14 +208,43 @@ func (s *Stream) readBuf() []byte {
 	return s.buf[s.cursor+remainNotNulCharNum:]
 }
 
+// ReadErr returns the first error other than io.EOF that the underlying reader
+// reported. It is sticky: once the reader has failed, no further data is read.
+func (s *Stream) ReadErr() error {
+	return s.readErr
+}
+
+const maxConsecutiveEmptyReads = 100
+
+// read refills the buffer and reports whether new data became available.
 func (s *Stream) read() bool {
-	if s.allRead {
+	if s.allRead || s.readErr != nil {
 		return false
 	}
 	buf := s.readBuf()
 	last := len(buf) - 1
 	buf[last] = nul
-	n, err := s.r.Read(buf[:last])
+	var (
+		n   int
+		err error
+	)
+	for i := 0; ; i++ {
+		n, err = s.r.Read(buf[:last])
+		if n > 0 || err != nil {
+			break
+		}
+		if i >= maxConsecutiveEmptyReads {
+			err = io.ErrNoProgress
+			break
+		}
+	}
+	if n < 0 || n > last {
+		n = 0
+		err = io.ErrNoProgress
+	}
+	// the reader may have used the rest of the buffer as scratch space:
+	// restore the sentinel right behind the data.
+	buf[n] = nul
 	s.length += int64(n)
 	if n == last {
 		s.filledBuffer = true
@@ -224,9 +254,9 @@ func (s *Stream) read() bool {
 	if err == io.EOF {
 		s.allRead = true
 	} else if err != nil {
-		return false
+		s.readErr = err
 	}
-	return true
+	return n > 0
 }
 
 func (s *Stream) skipWhiteSpace() byte {
@@ -456,101 +486,33 @@ func (s *Stream) skipValue(depth int64) error {
 	}
 }
 
-func nullBytes(s *Stream) error {
-	// current cursor's character is 'n'
-	s.cursor++
-	if s.char() != 'u' {
-		if err := retryReadNull(s); err != nil {
-			return err
-		}
-	}
-	s.cursor++
-	if s.char() != 'l' {
-		if err := retryReadNull(s); err != nil {
-			return err
-		}
-	}
-	s.cursor++
-	if s.char() != 'l' {
-		if err := retryReadNull(s); err != nil {
-			return err
+// literalBytes consumes the rest of a literal whose first character is under
+// the cursor. After every refill the character is examined again.
+func literalBytes(s *Stream, literal, name string) error {
+	for i := 1; i < len(literal); i++ {
+		s.cursor++
+		for s.char() != literal[i] {
+			if s.char() == nul && s.read() {
+				continue
+			}
+			return errors.ErrInvalidCharacter(s.char(), name, s.totalOffset())
 		}
 	}
 	s.cursor++
 	return nil
 }
 
-func retryReadNull(s *Stream) error {
-	if s.char() == nul && s.read() {
-		return nil
-	}
-	return errors.ErrInvalidCharacter(s.char(), "null", s.totalOffset())
+func nullBytes(s *Stream) error {
+	// current cursor's character is 'n'
+	return literalBytes(s, "null", "null")
 }
 
 func trueBytes(s *Stream) error {
 	// current cursor's character is 't'
-	s.cursor++
-	if s.char() != 'r' {
-		if err := retryReadTrue(s); err != nil {
-			return err
-		}
-	}
-	s.cursor++
-	if s.char() != 'u' {
-		if err := retryReadTrue(s); err != nil {
-			return err
-		}
-	}
-	s.cursor++
-	if s.char() != 'e' {
-		if err := retryReadTrue(s); err != nil {
-			return err
-		}
-	}
-	s.cursor++
-	return nil
-}
-
-func retryReadTrue(s *Stream) error {
-	if s.char() == nul && s.read() {
-		return nil
-	}
-	return errors.ErrInvalidCharacter(s.char(), "bool(true)", s.totalOffset())
+	return literalBytes(s, "true", "bool(true)")
 }
 
 func falseBytes(s *Stream) error {
 	// current cursor's character is 'f'
-	s.cursor++
-	if s.char() != 'a' {
-		if err := retryReadFalse(s); err != nil {
-			return err
-		}
-	}
-	s.cursor++
-	if s.char() != 'l' {
-		if err := retryReadFalse(s); err != nil {
-			return err
-		}
-	}
-	s.cursor++
-	if s.char() != 's' {
-		if err := retryReadFalse(s); err != nil {
-			return err
-		}
-	}
-	s.cursor++
-	if s.char() != 'e' {
-		if err := retryReadFalse(s); err != nil {
-			return err
-		}
-	}
-	s.cursor++
-	return nil
-}
-
-func retryReadFalse(s *Stream) error {
-	if s.char() == nul && s.read() {
-		return nil
-	}
-	return errors.ErrInvalidCharacter(s.char(), "bool(false)", s.totalOffset())
+	return literalBytes(s, "false", "bool(false)")
 }
